@@ -325,69 +325,35 @@ def pair_templates(repo, res):
             res.ob(key)
             if not re.search(r"\{name_from_uflfile\}\s*=\s*&\{factory_name\}\s*;", fac):
                 res.fail(key, "the alias {name_from_uflfile} is not initialised with &{factory_name}", tm.rel)
-        # generator: slot values for declaration and factory agree
+        # generator: interpreted on a small sample IR; what the header text declares must be what the source text defines, in the
+        # order (declaration, implementation)
+        from ..absint import Raised as _RaisedPT
+        from .genintegral import sample_form_output, sample_generator_output
+
         g = gm.func("generator")
         res.functions.add(g.key)
-        sl = Slicer(g.node)
-        dcalls = [c for c in calls_in(g.node) if isinstance(c.func, ast.Attribute) and c.func.attr in ("format", "format_map")
-                  and "declaration" in (dotted(c.func.value) or "")]
-        fcalls = [c for c in calls_in(g.node) if isinstance(c.func, ast.Attribute) and c.func.attr in ("format", "format_map")
-                  and "factory" in (dotted(c.func.value) or "")]
-        if len(dcalls) != 1 or len(fcalls) != 1:
-            raise AnalysisError(f"{gmod}.generator: expected one declaration.format and one factory.format call")
-
-        def slot_values(call):
-            vals = {}
-            if call.func.attr == "format":
-                for k in call.keywords:
-                    if k.arg:
-                        vals[k.arg] = k.value
-            else:
-                dv = call.args[0]
-                if isinstance(dv, ast.Name):
-                    for n in walk_no_nested(g.node):
-                        if isinstance(n, ast.Assign) and isinstance(n.targets[0], ast.Subscript) and isinstance(n.targets[0].value, ast.Name) \
-                                and n.targets[0].value.id == dv.id and isinstance(n.targets[0].slice, ast.Constant):
-                            vals[n.targets[0].slice.value] = n.value
-            return vals
-
-        dv, fv = slot_values(dcalls[0]), slot_values(fcalls[0])
-
-        def resolve(e):
-            # d["k"] -> stored expression; names -> their definitions (one level)
-            seen = 0
-            while seen < 4:
-                seen += 1
-                if isinstance(e, ast.Subscript) and isinstance(e.slice, ast.Constant) and e.slice.value in fv and isinstance(e.value, ast.Name):
-                    e = fv[e.slice.value]
-                    continue
-                if isinstance(e, ast.Name) and e.id in sl.defs and len(sl.defs[e.id]) == 1:
-                    e = sl.defs[e.id][0]
-                    continue
-                break
-            return ast.unparse(e)
-
-        for slot in set(_fields(ts["declaration"])):
-            key = f"{gmod}:slot:{slot}"
-            res.ob(key)
-            if slot not in dv or slot not in fv:
-                res.fail(key, f"slot {{{slot}}} is not supplied to both templates", gm.line(g.node))
-                continue
-            a, b = resolve(dv[slot]), resolve(fv[slot])
-            if a != b:
-                res.fail(key, f"header is formatted with {slot}={a} but the source with {slot}={b}: the header declares a "
-                         "symbol the source never defines", gm.line(dcalls[0]))
-        # the generator returns (declaration, implementation) in this order
-        key = f"{gmod}:return-order"
+        key = f"{gmod}:declared-is-defined"
         res.ob(key)
-        rets = [n for n in walk_no_nested(g.node) if isinstance(n, ast.Return)]
-        if len(rets) != 1 or not isinstance(rets[0].value, ast.Tuple) or len(rets[0].value.elts) != 2:
+        try:
+            out = sample_form_output(repo, "C")[0] if kind == "form" else sample_generator_output(repo, "C", kind)[0]
+        except _RaisedPT as e:
+            res.fail(key, f"C {kind} generator raises ({e.what}) on the sample IR", gm.line(g.node))
+            continue
+        if not (isinstance(out, tuple) and len(out) == 2):
             res.fail(key, "generator does not return a (declaration, implementation) pair", gm.line(g.node))
-        else:
-            e0, e1 = rets[0].value.elts
-            t0, t1 = sl.text(e0), sl.text(e1)
-            if "declaration" not in t0 or "factory" not in t1 or "factory" in t0.split(";;")[0]:
-                res.fail(key, f"generator returns ({ast.unparse(e0)}, {ast.unparse(e1)}): header and source text swapped", gm.line(rets[0]))
+            continue
+        hdr, src = out
+        declared = re.findall(r"extern\s+([A-Za-z_]\w*\s*\*?)\s*([A-Za-z_]\w*)\s*;", hdr)
+        if not declared:
+            res.fail(key, f"the first text the C {kind} generator returns declares nothing (`extern ...;`): header and source text swapped?", gm.line(g.node))
+        if re.search(r"(?m)^\s*[A-Za-z_][\w\s\*]*\b[A-Za-z_]\w*\s*(\[[^\]]*\])?\s*=\s*[^=]", hdr):
+            res.fail(key, f"the header text of the C {kind} generator contains a definition: every file including it would define the object", gm.line(g.node))
+        for cty, name in declared:
+            ty = re.sub(r"\s+", "", cty)
+            pat = re.compile(r"(?m)^\s*" + re.escape(ty.rstrip("*")) + r"\s*" + (r"\*\s*" if ty.endswith("*") else r"") + re.escape(name) + r"\s*=")
+            if not pat.search(src):
+                res.fail(key, f"the header declares `extern {cty.strip()} {name};` but the source text of the same object has no definition `{cty.strip()} {name} =`: "
+                         "header and source are formatted with different names", gm.line(g.node))
     # file templates
     ft = repo.mod("ffcx.codegeneration.C.file_template")
     ts = _template_strings(ft)
@@ -408,20 +374,24 @@ def pair_templates(repo, res):
         res.fail(key, "header prologue lacks `#pragma once` / `#include <ufcx.h>`", ft.rel)
     if "{extra_c_includes}" not in ipre:
         res.fail(key, "source prologue has no slot for <complex.h>", ft.rel)
-    # file generator: pre = (declaration_pre, implementation_pre), post = (declaration_post, implementation_post)
+    # file generator (interpreted): header text = pre[0] ... post[0] opens and closes one extern "C" block; source text = pre[1] ... post[1]
+    from ..absint import Raised as _RaisedPT2
+    from .genintegral import sample_file_output
+
     fg = repo.mod("ffcx.codegeneration.C.file").func("generator")
     res.functions.add(fg.key)
-    fsl = Slicer(fg.node)
     key = f"{fg.key}:pre-post-order"
     res.ob(key)
-    rets = [n for n in walk_no_nested(fg.node) if isinstance(n, ast.Return)]
-    ok = False
-    if rets and isinstance(rets[0].value, ast.Tuple) and len(rets[0].value.elts) == 2:
-        a, b = (fsl.defs.get(getattr(e, "id", ""), [e])[0] for e in rets[0].value.elts)
-        ta, tb = ast.unparse(a), ast.unparse(b)
-        ok = re.search(r"declaration_pre.*implementation_pre", ta, re.S) and re.search(r"declaration_post.*implementation_post", tb, re.S)
+    try:
+        (fpre, fpost), _g = sample_file_output(repo, "C", "complex128")
+        hdr, src = fpre[0] + "\n/* objects */\n" + fpost[0], fpre[1] + "\n/* objects */\n" + fpost[1]
+        ok = (len(re.findall(r'extern\s+"C"\s*\{', fpre[0])) == 1 and "}" in fpost[0] and "#pragma once" in fpre[0] and "#include <ufcx.h>" in fpre[0]
+              and "#include <math.h>" in fpre[1] and "#include <complex.h>" in fpre[1] and 'extern "C"' not in src and hdr.count("{") == hdr.count("}"))
+    except (_RaisedPT2, IndexError, TypeError) as e:
+        ok = False
     if not ok:
-        res.fail(key, "C file generator does not return ((declaration_pre, implementation_pre), (declaration_post, implementation_post))",
+        res.fail(key, "C file generator does not return ((header prologue, source prologue), (header epilogue, source epilogue)): the header must open and close its "
+                 "extern \"C\" block around the declarations, the source must include <math.h> (and <complex.h> in complex mode) before the kernels",
                  "ffcx/codegeneration/C/file.py")
 
 
@@ -447,30 +417,39 @@ def suffix_arity(repo, res):
         want = (".h", ".c") if be == "C" else ("_numba.py",)
         if tuple(suffixes) != want:
             res.fail(key, f"{be} backend writes files with suffixes {suffixes}, documented {want}", fm.rel)
+        # arity of what each generator returns: the generators are interpreted on small sample IRs
+        from ..absint import Raised as _RaisedSA
+        from .genintegral import sample_file_output, sample_form_output, sample_generator_output
+
         for gname in ("integral", "form", "expression"):
             g = repo.mod(f"{base}.{gname}").func("generator")
             res.functions.add(g.key)
             key = f"{g.key}:arity"
             res.ob(key)
-            for r in [x for x in walk_no_nested(g.node) if isinstance(x, ast.Return)]:
-                v = r.value
-                k = len(v.elts) if isinstance(v, ast.Tuple) else None
-                if k != n:
-                    res.fail(key, f"{g.key} returns `{ast.unparse(v)[:60]}` ({k} parts) but the backend writes {n} file(s)", g.module.line(r))
+            try:
+                out = sample_form_output(repo, be)[0] if gname == "form" else sample_generator_output(repo, be, gname)[0]
+            except _RaisedSA as e:
+                res.fail(key, f"{g.key} raises ({e.what}) on the sample IR", g.module.line(g.node))
+                continue
+            k = len(out) if isinstance(out, tuple) else None
+            if k != n or not all(isinstance(t_, str) for t_ in out):
+                res.fail(key, f"{g.key} returns {k} part(s) but the backend writes {n} file(s) {tuple(suffixes)}", g.module.line(g.node))
         g = fm.func("generator")
+        res.functions.add(g.key)
         key = f"{g.key}:arity"
         res.ob(key)
-        for r in [x for x in walk_no_nested(g.node) if isinstance(x, ast.Return)]:
-            v = r.value
-            if not (isinstance(v, ast.Tuple) and len(v.elts) == 2):
-                res.fail(key, "file generator must return (pre, post)", fm.line(r))
-                continue
-            sl = Slicer(g.node)
-            for part in v.elts:
-                pv = sl.defs.get(part.id, [part])[0] if isinstance(part, ast.Name) else part
-                k = len(pv.elts) if isinstance(pv, ast.Tuple) else None
-                if k != n:
-                    res.fail(key, f"file generator part `{ast.unparse(pv)[:50]}` has {k} components, expected {n}", fm.line(r))
+        try:
+            out = sample_file_output(repo, be)[0]
+        except _RaisedSA as e:
+            res.fail(key, f"{g.key} raises ({e.what})", fm.line(g.node))
+            continue
+        if not (isinstance(out, tuple) and len(out) == 2):
+            res.fail(key, "file generator must return (pre, post)", fm.line(g.node))
+            continue
+        for part in out:
+            k = len(part) if isinstance(part, (tuple, list)) else None
+            if k != n or not all(isinstance(t_, str) for t_ in part):
+                res.fail(key, f"a part of what the file generator returns has {k} components, expected {n} texts (one per file)", fm.line(g.node))
     # format_code
     fmod = repo.mod("ffcx.formatting")
     fc = fmod.func("format_code")
@@ -803,6 +782,69 @@ def diag_to_form(repo, res):
                      "and the kernels' tensor shape must follow the same option", rep.line(ci.node))
         if [(i, o.get("part")) for i, o in seen["integral"]] != [(0, part), (1, part)]:
             res.fail(key, f"with options part={part!r} the integral IRs are computed with {[(i, o.get('part')) for i, o in seen['integral']]}", rep.line(ci.node))
+
+
+@rule(
+    "KERNEL-ONCE",
+    ["C06"],
+    "compute_ir, interpreted with a stub for the per-form integral IR that returns integrals whose integrand maps have several quadrature rules "
+    "per cell type (and, for a prism facet integral, two cell types): the cell types handed to the form IR per integral name are exactly the "
+    "first components of that integral's integrand keys, each once - an integral lowered with two rules must not appear twice under its id",
+    min_instances=1,
+)
+def kernel_once(repo, res):
+    from ..absint import Interp, Node, Raised, _PyCall
+    from ..lnodes_model import load_classes
+
+    rep = repo.mod("ffcx.ir.representation")
+    ci = rep.func("compute_ir")
+    res.functions.add(ci.key)
+    key = f"{ci.key}:integral_domains:one-entry-per-cell-type"
+    res.ob(key)
+    it = Interp(repo, load_classes(repo), primary="ffcx.ir.representation")
+    it.overrides["logger"] = Node("Logger", info=_PyCall(lambda *a: None), debug=_PyCall(lambda *a: None))
+    it.overrides["naming.form_name"] = _PyCall(lambda form, i, prefix: f"form_{i}_{prefix}")
+    it.overrides["naming.integral_name"] = _PyCall(lambda form, t, i, sid, prefix, k=None: f"integral_{i}_{t}_{k}")
+    it.overrides["naming.expression_name"] = _PyCall(lambda e, prefix, i=None: f"expression_{i}_{prefix}")
+    r1, r2, r3 = (Node("QuadratureRule", name=n_) for n_ in ("r1", "r2", "r3"))
+    tri, quad, prism = 3, 4, 6   # basix.CellType values are int-like: hashable, sortable
+    per_form = {
+        0: [Node("IntegralIR", expression=Node("CommonExpressionIR", name="two_rules_on_one_cell_type", integrand={(tri, r1): {}, (tri, r2): {}, (tri, r3): {}})),
+            Node("IntegralIR", expression=Node("CommonExpressionIR", name="prism_facets", integrand={(quad, r1): {}, (tri, r1): {}, (quad, r2): {}}))],
+        1: [Node("IntegralIR", expression=Node("CommonExpressionIR", name="single", integrand={(prism, r1): {}}))],
+    }
+    seen = []
+    it.overrides["_compute_integral_ir"] = _PyCall(lambda fd, i, els, inames, opts, vis: list(per_form[i]))
+    it.overrides["_compute_form_ir"] = _PyCall(lambda fd, i, prefix, fnames, inames, idom, onames, part_:
+                                                seen.append(idom) or Node("FormIR", name=fnames[i], name_from_uflfile=f"form_{prefix}_{i}"))
+    it.overrides["_compute_expression_ir"] = _PyCall(lambda *a: Node("ExpressionIR", name="e", name_from_uflfile="e"))
+    it.overrides["TensorPart.from_str"] = _PyCall(lambda s_: f"TensorPart.{s_}")
+    it.overrides["DataIR"] = _PyCall(lambda **k: Node("DataIR", **k))
+    it.overrides["id"] = _PyCall(lambda o: id(o))
+    fds = [Node("FormData", original_form=Node("Form", name=n_), integral_data=[]) for n_ in ("a", "L")]
+    an = Node("UFLData", form_data=fds, expressions=[], element_numbers={}, unique_elements=[])
+    try:
+        it.call_f(ci, [an, {}, "p", {"part": "full", "scalar_type": "float64", "sum_factorization": False}, False])
+    except Raised as e:
+        res.fail(key, f"compute_ir raises ({e.what}) on the sample", rep.line(ci.node))
+        return
+    want = {"two_rules_on_one_cell_type": [tri], "prism_facets": [tri, quad], "single": [prism]}
+    for idom in seen:
+        if not isinstance(idom, dict):
+            res.fail(key, f"the form IR is handed {idom!r} instead of a map integral name -> cell types", rep.line(ci.node))
+            return
+        for name, w in want.items():
+            try:
+                got = sorted(it.iterate(idom.get(name))) if isinstance(idom.get(name), (set, frozenset)) else list(it.iterate(idom.get(name)))
+            except Exception:
+                got = idom.get(name)
+            if not isinstance(got, list) or sorted(got) != w:
+                res.fail(key, f"integral `{name}` (integrand keys {[(c, r.f['name']) for c, r in [k_ for f_ in per_form.values() for x in f_ if x.f['expression'].f['name'] == name for k_ in x.f['expression'].f['integrand']]]}) "
+                         f"is listed with the cell types {got}, expected {w}: one kernel per cell type - an integral lowered with several rules "
+                         "(m*ds(7, degree=2) + 3*m*ds(7, degree=4)) would otherwise be listed, and added by the assembler, once per rule", rep.line(ci.node))
+                return
+    if len(seen) != 2:
+        res.fail(key, f"_compute_form_ir is called {len(seen)} times for two forms", rep.line(ci.node))
 
 
 @rule(
